@@ -214,10 +214,18 @@ class Conn:
             if self.middlebox_ccs:
                 self.send(False, 20, b"\x01", "ccs")
             self._activate(self.c, False, "hs")
-            self.send(False, 22, hs_msg(20, self.rb(32 if self.d["hash"] == "SHA256" else 48)), "hs", pad=pad13)
+            def pieces(data):
+                # with hs13_cuts the client's Finished and the post-handshake tickets are fragmented too, at bytes derived from the same cuts
+                if hs13_cuts is None:
+                    return [data]
+                cs = sorted(set(x % len(data) for x in hs13_cuts if x % len(data)))[:3]
+                return [data[a:b] for a, b in zip([0] + cs, cs + [len(data)])]
+            for piece in pieces(hs_msg(20, self.rb(32 if self.d["hash"] == "SHA256" else 48))):
+                self.send(False, 22, piece, "hs", pad=pad13)
             self._activate(self.c, False, "app")
-            for _ in range(tickets):
-                self.send(True, 22, hs_msg(4, self.rb(4) + self.rb(4) + b"\x08" + self.rb(8) + b"\x00\x20" + self.rb(32) + b"\x00\x00"), "hs")
+            tk = b"".join(hs_msg(4, self.rb(4) + self.rb(4) + b"\x08" + self.rb(8) + b"\x00\x20" + self.rb(32) + b"\x00\x00") for _ in range(tickets))
+            for piece in (pieces(tk) if tk else []):
+                self.send(True, 22, piece, "hs")
             return
         fin = lambda: hs_msg(20, self.rb(36 if self.version == "SSL30" else 12))
         if shape == "full":
